@@ -1198,9 +1198,13 @@ func (w *World) monMissing(h []ev) {
 // PUBREC was received) in the same step in which it is resumed.
 func (w *World) monKept(h []ev) {
 	type rec struct {
-		tag string
-		rel bool
-		id  packet.ID
+		tag  string
+		rel  bool
+		id   packet.ID
+		form string // topic, QoS and retain flag of the first transmission: a retransmission differs in the DUP flag only
+	}
+	form := func(p *packet.Publish) string {
+		return fmt.Sprintf("topic %q, QoS %d, retain %v", p.Message.Topic, p.Message.QOS, p.Message.Retain)
 	}
 	key := func(c int) string {
 		p := w.peers[c]
@@ -1269,7 +1273,7 @@ func (w *World) monKept(h []ev) {
 			} else {
 				m := map[packet.ID]*rec{}
 				for id, r := range get(k) {
-					m[id] = &rec{r.tag, r.rel, id}
+					m[id] = &rec{r.tag, r.rel, id, r.form}
 				}
 				expect[e.conn] = m
 				mt := map[string]packet.ID{}
@@ -1296,6 +1300,8 @@ func (w *World) monKept(h []ev) {
 					if m := expect[e.conn]; m != nil {
 						if r, ok := m[p.ID]; ok && !r.rel && r.tag != tag {
 							w.hit("resend-altered", fmt.Sprintf("connection %d: id %d retransmitted with payload %q, originally %q", e.conn, p.ID, tag, r.tag))
+						} else if ok && !r.rel && r.form != "" && r.form != form(p) {
+							w.hit("resend-altered", fmt.Sprintf("connection %d: id %d (%q) retransmitted as %s, originally %s", e.conn, p.ID, tag, form(p), r.form))
 						}
 						delete(m, p.ID)
 					}
@@ -1303,7 +1309,11 @@ func (w *World) monKept(h []ev) {
 						delete(m, tag)
 					}
 				}
-				get(k)[p.ID] = &rec{tag: tag, id: p.ID}
+				f := form(p)
+				if old := get(k)[p.ID]; p.Dup && old != nil && old.tag == tag && old.form != "" {
+					f = old.form // (a retransmission does not redefine what the message looked like)
+				}
+				get(k)[p.ID] = &rec{tag: tag, id: p.ID, form: f}
 			case *packet.Pubrel:
 				if m := expect[e.conn]; m != nil {
 					delete(m, p.ID)
